@@ -950,7 +950,7 @@ class Exec:
         if op == '!':
             if isinstance(v, IntV):
                 return BoolV(v.t == 0)
-            return BoolV(z3.Not(v.t))
+            return BoolV(z3.Not(self.tobool(v)))       # pointers / objects: null test; an uninterpreted value is refused (ExtractionError)
         if op == '~':
             ct = parse_type(n['type'])
             return IntV(self.wrap(-v.t - 1, ct), ct)
